@@ -80,6 +80,20 @@ pub fn finish_reinit(w: &mut World) -> VResult<()> {
         w.stats.probe("reinit-flow-skipped-member-missing");
         return Ok(());
     }
+    // in half of the runs every member first stores the re-initialised group and comes back from storage: the
+    // re-initialisation has to survive that
+    if mix(&[w.seed, 0xc17, 1]) % 2 == 0 {
+        for p in &members {
+            w.do_write(*p, g)?;
+            w.do_crash(*p)?;
+            w.do_reload(*p, g)?;
+            if w.parties[*p].mems[g].group.is_none() {
+                w.stats.probe("reinit-flow-skipped-member-missing");
+                return Ok(());
+            }
+        }
+        w.stats.probe("reinit-members-reloaded-from-storage");
+    }
     // (a) the old group refuses further commits
     for p in &members {
         let mut c = w.parties[*p].mems[g].group.clone().unwrap();
